@@ -186,7 +186,11 @@ pub fn run_validate(args: &[String]) {
             // ---- validation deviations
             let dev = &c["dev"];
             let dkey = format!("{layout}:{dev}");
-            if done_dev.insert(dkey.clone()) {
+            // a usage deviation of the model's multi-cell (1) / single-cell (2) builtin is applied to every builtin of that class
+            let targets: Vec<Option<usize>> = if dev[0] == "usage" {
+                builtins.iter().enumerate().filter(|(_, b)| (b.cells > 1) == (dev[1] == 1)).map(|(i, _)| Some(i)).collect()
+            } else { vec![None] };
+            if done_dev.insert(dkey.clone()) { for target in targets {
                 let mut pi = clone_pi(pi0);
                 let mut lt = lt0;
                 let zero_usage = |pi: &mut PublicInput| { for b in &builtins { pi.segments[b.seg].stop_ptr = pi.segments[b.seg].begin_addr; } };
@@ -195,6 +199,7 @@ pub fn run_validate(args: &[String]) {
                 // memory / range-check unit counts) that ValidPI does not model: deviations that change the trace size are not applied to it
                 if layout == "dynamic" && dev[0] == "simple" && (dev[2] == "logSteps=max-1,consistent" || dev[2].as_str().unwrap().starts_with("tinyTrace")) { applicable = false; }
                 if !applicable { continue; }
+                let _ = (multi, single);
                 if dev[0] == "simple" {
                     match dev[2].as_str().unwrap() {
                         "none" => {}
@@ -216,7 +221,7 @@ pub fn run_validate(args: &[String]) {
                         o => panic!("dev {o}"),
                     }
                 } else {
-                    let b = &builtins[if dev[1] == 1 { multi } else { single }];
+                    let b = &builtins[target.unwrap()];
                     let copies = (1u128 << lt0) / b.row_ratio as u128;
                     let cells = b.cells as u128;
                     let begin = pi.segments[b.seg].begin_addr;
@@ -231,11 +236,11 @@ pub fn run_validate(args: &[String]) {
                     let r = real::dispatch!(layout.as_str(), validate_g, &pi, &doms);
                     let expect = c["valid"].as_bool().unwrap();
                     match r {
-                        Ok(got) => if got != expect { bad += 1; out.line(&json!({"ok": false, "kind": "validate", "layout": layout, "dev": dev, "why": format!("ValidPI = {expect} but validate_public_input accepted = {got}")})); },
+                        Ok(got) => if got != expect { bad += 1; out.line(&json!({"ok": false, "kind": "validate", "layout": layout, "dev": dev, "builtin_segment": target.map(|t| builtins[t].seg), "why": format!("ValidPI = {expect} but validate_public_input accepted = {got} (builtin segment {:?})", target.map(|t| builtins[t].seg))})); },
                         Err(p) => { panics += 1; if expect { bad += 1; } out.line(&json!({"ok": false, "kind": "panic", "layout": layout, "dev": dev, "where": p, "why": "validate_public_input panicked"})); }
                     }
                 }
-            }
+            } }
             // ---- main-page perturbations
             let pd = c["pagedev"].as_str().unwrap();
             let pkey = format!("{layout}:{pd}");
